@@ -8,6 +8,7 @@
 Generate type stubs for configurations.
 """
 import inspect
+import types
 from typing import Any, Dict, Optional, Type, Union
 
 from .core import BaseField, Config, ConfigType, ConfigTypeField, Field, Schema
@@ -34,8 +35,11 @@ def get_annotation_typestr(field: Union[BaseField, Type, str]) -> str:
         storage_type = field
     elif field is None:
         storage_type = "None"
-    elif getattr(field, "__module__", None) == "typing":
-        # typing constructs (Optional[int], List[str], ...) are annotated by their own text
+    elif getattr(field, "__module__", None) == "typing" or isinstance(
+        field, (types.GenericAlias, types.UnionType)
+    ):
+        # typing constructs (Optional[int], List[str], ...), builtin generics (list[int]) and
+        # unions written with | are annotated by their own text
         storage_type = field
     else:
         raise TypeError("Unknown storage_type: %s" % type(field))
